@@ -202,15 +202,14 @@ def abbreviate (t : List Nat) : List Nat :=
 def renderCols (K : Consts) (hp : Heap) (byId : List (Option Int × String)) (a : Nat) : List String → Except Err (List Cell)
   | [] => .ok []
   | n :: ns =>
-    match slot hp a n with
-    | none => .error .attributeError
-    | some v =>
-      match renderVal K hp byId (hp.length + 1) v with
+    -- `fs[name]` is `get`, i.e. `getattr(fs, name, None)`: an instance created before the feature existed has no
+    -- such slot and answers `None`
+    match renderVal K hp byId (hp.length + 1) ((slot hp a n).getD .none) with
+    | .error e => .error e
+    | .ok c =>
+      match renderCols K hp byId a ns with
       | .error e => .error e
-      | .ok c =>
-        match renderCols K hp byId a ns with
-        | .error e => .error e
-        | .ok cs => .ok (c :: cs)
+      | .ok cs => .ok (c :: cs)
 
 /-- `_render_feature_structure` -/
 def renderRow (K : Consts) (cass : List Cas) (hp : Heap) (byId : List (Option Int × String)) (t : TypeRec)
